@@ -103,6 +103,10 @@ func genMessage(r *core.Rand, depth int, tagged bool) reflect.Type {
 			used[num] = true
 			f.Tag = reflect.StructTag(fmt.Sprintf(`protobuf:"%s,%d,%s,name=n%d"`, wire, num, rep, i))
 		}
+		if !tagged && r.Chance(1, 4) {
+			// an unexported field in between: it takes no field number
+			fs = append(fs, reflect.StructField{Name: fmt.Sprintf("u%d", i), PkgPath: "verifharness/mon/c19", Type: reflect.TypeOf(int32(0))})
+		}
 		fs = append(fs, f)
 	}
 	return reflect.StructOf(fs)
@@ -230,6 +234,9 @@ func template(r *core.Rand, v reflect.Value, depth int, rules proto.RewriterRule
 			continue
 		}
 		f := t.Field(i)
+		if !f.IsExported() {
+			continue
+		}
 		name, _ := stdjson.Marshal(fieldName(f))
 		dst := v.Field(i)
 		ft := f.Type
@@ -460,6 +467,9 @@ func runTemplates(c *core.Case) {
 		var cand []int
 		for i := 0; i < t.NumField(); i++ {
 			ft := t.Field(i).Type
+			if !t.Field(i).IsExported() {
+				continue
+			}
 			if ft.Kind() != reflect.Map && !(ft.Kind() == reflect.Slice && ft.Elem().Kind() != reflect.Uint8) {
 				cand = append(cand, i)
 			}
